@@ -162,6 +162,19 @@ Definition run_helpers (a : list Z) : list Z :=
   | _ => [-2]
   end.
 
+(* CMD lstm = 6 : present(list) ranks(list) vars(list) ifm_rank ofm_rank n_inputs n_intermediates ->
+     no_cifg no_peep_hole no_projection no_normalisation weights weight_dimensions dimensions inputs intermediates variables
+     supported documented *)
+Definition run_lstm (a : list Z) : list Z :=
+  let '(present, t) := take_list a in let '(ranks, t) := take_list t in let '(vars, t) := take_list t in
+  match t with
+  | ir :: orank :: ni :: nm :: _ =>
+      [bz (lstm_no_cifg present); bz (lstm_no_peep_hole present); bz (lstm_no_projection present); bz (lstm_no_normalisation present);
+       bz (lstm_weights present); lstm_weight_dimensions ranks; bz (lstm_dimensions ir orank); bz (lstm_inputs ni);
+       bz (lstm_intermediates nm); lstm_variables vars; bz (lstm_supported present ranks); bz (doc_lstm_supported present ranks)]
+  | _ => [-2]
+  end.
+
 Definition run (cmd : Z) (a : list Z) : list Z :=
   match cmd with
   | 1 => run_pred a
@@ -169,5 +182,6 @@ Definition run (cmd : Z) (a : list Z) : list Z :=
   | 3 => run_semantic a
   | 4 => run_listed a
   | 5 => run_helpers a
+  | 6 => run_lstm a
   | _ => [-3]
   end.
